@@ -117,21 +117,25 @@ theorem solve_ok_of_new {KIw KIs : List Kkt.ConeSpec → Nat → Nat → KktSolv
       KktSolver.new d.P d.A K d.m d.n st.lin perm = .ok Ks → KIw (K.map ConeSt.kktSpec) d.n d.m Ks)
     (htot : ∀ specs n m, KktTotal2 (KIw specs n m) (KIs specs n m) specs n m st.lin)
     {S : Solver α} (h : Solver.new P q A b cones st perm = .ok S) :
-    OkAnd (S.solve st) (fun r => SolverInv (KIw (S.st.cones.map ConeSt.kktSpec) S.st.data.n S.st.data.m)
-      S.st.data (S.st.cones.map ConeSt.kktSpec) r.S) :=
-  solve_ok (Stages.of_kkt hf (htot _ _ _)) (solverNew_inv hin hnew h)
+    OkAnd (S.solve st) (fun r => fillNorms S.st.data = .ok r.S.st.data
+      ∧ SolverInv (KIw (S.st.cones.map ConeSt.kktSpec) S.st.data.n S.st.data.m)
+        r.S.st.data (S.st.cones.map ConeSt.kktSpec) r.S) :=
+  (solve_ok (Stages.of_kkt hf (htot _ _ _)) (solverNew_inv hin hnew h)).mono fun _ hr => ⟨hr.2.1, hr.2.2⟩
 
-/-- the invariant is kept by any number of `solve()` calls: `n` successive solves all return `.ok` -/
-theorem solve_iterate_ok {KIw KIs : KktSolver α → Prop} {d : ProblemData α} {specs : List Kkt.ConeSpec}
-    {st : Settings α} (G : Stages KIw KIs d specs st) : ∀ (k : Nat) {S : Solver α},
-    SolverInv KIw d specs S → ∃ S', SolverInv KIw d specs S' ∧
+/-- the invariant is kept by any number of `solve()` calls: `n` successive solves all return `.ok`
+(the data the invariant is anchored at changes in the two norm caches only, which the first solve
+fills: same `n`, `m`) -/
+theorem solve_iterate_ok {KIw KIs : KktSolver α → Prop} {specs : List Kkt.ConeSpec}
+    {st : Settings α} : ∀ (k : Nat) {d : ProblemData α} (G : Stages KIw KIs d specs st) {S : Solver α},
+    SolverInv KIw d specs S → ∃ S' d', d'.n = d.n ∧ d'.m = d.m ∧ SolverInv KIw d' specs S' ∧
       (Nat.rec (motive := fun _ => MErr (Solver α)) (pure S)
         (fun _ acc => acc >>= fun T => (T.solve st).map (·.S)) k) = .ok S'
-  | 0, S, h => ⟨S, h, rfl⟩
-  | k + 1, S, h => by
-    obtain ⟨S1, h1, e1⟩ := solve_iterate_ok G k h
-    obtain ⟨r, hr, h2⟩ := solve_ok G h1
-    refine ⟨r.S, h2, ?_⟩
+  | 0, d, _, S, h => ⟨S, d, rfl, rfl, h, rfl⟩
+  | k + 1, d, G, S, h => by
+    obtain ⟨S1, d1, en, em, h1, e1⟩ := solve_iterate_ok k G h
+    have G1 : Stages KIw KIs d1 specs st := ⟨G.cone, G.top, by rw [en, em]; exact G.kkt⟩
+    obtain ⟨r, hr, ⟨nq, nb, hd⟩, _, h2⟩ := solve_ok G1 h1
+    refine ⟨r.S, r.S.st.data, by rw [hd]; exact en, by rw [hd]; exact em, h2, ?_⟩
     show ((Nat.rec (motive := fun _ => MErr (Solver α)) (pure S)
         (fun _ acc => acc >>= fun T => (T.solve st).map (·.S)) k) >>= fun T => (T.solve st).map (·.S)) = _
     rw [e1]
